@@ -1,10 +1,19 @@
 ------------------------- MODULE ResamplerTimeline -------------------------
 (* C07 - the timeline of timeseries/_resampling.py:Resampler.                *)
 (*                                                                            *)
-(* Time is counted in integer ticks (the harness maps 1 tick = 1 s and the    *)
-(* resampling period P = 4 ticks, so creation instants between grid points    *)
-(* and lateness of exactly one period exist).  Wall clock and loop clock are  *)
-(* the same variable `now` (the harness slaves datetime.now() to the loop).   *)
+(* The scopes are given in ticks (1 tick = U microseconds = 1 s; P = 4 or 7   *)
+(* ticks, so creation instants between grid points and lateness of exactly    *)
+(* one period exist), but every instant the model keeps - now, created,       *)
+(* windowEnd, nextTick, busyUntil and the emitted timestamps - is an integer  *)
+(* number of MICROSECONDS since the harness's epoch, because a resampler may   *)
+(* be created a few hundred microseconds after a grid point (OffSet) and the  *)
+(* code treats ANY non-zero elapsed time as "not in sync".  align_to is an     *)
+(* absolute instant in ticks (it may be half a year away, which does not fit  *)
+(* 32 bits in microseconds): only its phase modulo the period matters.  The   *)
+(* tzinfo align_to is expressed in (TzOf) does not change that instant; it is *)
+(* passed to the real code by the harness and recorded in the history.        *)
+(* Wall clock and loop clock are the same variable `now` (the harness slaves  *)
+(* datetime.now() to the loop).                                               *)
 (*                                                                            *)
 (* One action per critical section of the code:                               *)
 (*   Create      Resampler.__init__: _calculate_window_end + the timer hack   *)
@@ -44,7 +53,11 @@ EXTENDS Integers, Sequences, FiniteSets, TLC, Json, CSV, IOUtils
 
 CONSTANTS P,          \* resampling period in ticks
           CreateSet,  \* creation instants (absolute ticks); covers all phases of the grid
+          OffSet,     \* sub-tick part of the creation instant (microseconds, < U)
           AlignSet,   \* align_to values (absolute ticks, before and after creation) and None
+          TzOf,       \* align_to value -> the tzinfo it is expressed in ("utc", a fixed offset such as
+                      \* "+05:30", or a zone name such as "Europe/Berlin" whose UTC offset at align_to
+                      \* differs from the one at creation)
           NS,         \* series are 1..NS; series 1 is added together with the resampler
           LatSet,     \* sink latencies (ticks) TLC may choose for a tick
           FailSet,    \* series that may break (series 1 is the observer and never does)
@@ -54,6 +67,8 @@ CONSTANTS P,          \* resampling period in ticks
 
 None == -99
 Series == 1..NS
+U == 1000000            \* microseconds per tick
+PU == P * U             \* the resampling period in microseconds
 
 VARIABLES now, created, alignTo, windowEnd, nextTick, phase, busyUntil,
           drift,      \* what the timer reported for the current tick (only logged by the code)
@@ -82,12 +97,15 @@ Present == {s \in Series : joined[s] # None /\ s \notin removed}     \* keys of 
 NSeries == Cardinality(Present)
 
 ----------------------------------------------------------------------------
-(* _calculate_window_end: <<window_end, start_delay>> for creation instant c *)
+\* the position of align_to inside a period, in microseconds (align_to is a whole number of ticks)
+AlPhase(al) == (al % P) * U
+
+(* _calculate_window_end: <<window_end, start_delay>> for creation instant c (microseconds) *)
 CalcWindowEnd(c, al) ==
-    IF al = None THEN <<c + P, 0>>
-    ELSE LET elapsed == (c - al) % P IN          \* Python's % on timedelta: never negative
-         IF elapsed = 0 THEN <<c + P, 0>>
-         ELSE <<c + 2 * P - elapsed, P - elapsed>>
+    IF al = None THEN <<c + PU, 0>>
+    ELSE LET elapsed == (c - AlPhase(al)) % PU IN    \* (now - align_to) % period: never negative
+         IF elapsed = 0 THEN <<c + PU, 0>>           \* `if not elapsed`: exactly zero, nothing less
+         ELSE <<c + 2 * PU - elapsed, PU - elapsed>>
 
 Init ==
     /\ now = 0 /\ created = None /\ alignTo = None /\ windowEnd = None /\ nextTick = None
@@ -95,16 +113,17 @@ Init ==
     /\ joined = [s \in Series |-> None] /\ ticks = <<>> /\ h = <<>>
     /\ broken = [s \in Series |-> "no"] /\ left = [s \in Series |-> None] /\ removed = {} /\ failed = {}
 
-Create(c, al) ==
+Create(ct, off, al) ==
     /\ phase = "none"
-    /\ now' = c /\ created' = c /\ alignTo' = al
-    /\ LET we == CalcWindowEnd(c, al) IN
+    /\ LET c == ct * U + off
+           we == CalcWindowEnd(c, al) IN
+       /\ now' = c /\ created' = c /\ alignTo' = al
        /\ windowEnd' = we[1]
-       /\ nextTick' = c + P + we[2]              \* loop.time() + period + start_delay
+       /\ nextTick' = c + PU + we[2]             \* loop.time() + period + start_delay
     /\ phase' = "sleep"
     /\ joined' = [joined EXCEPT ![1] = 0]
     /\ UNCHANGED <<busyUntil, drift, gathered, broken, left, removed, failed, ticks>>
-    /\ h' = <<[a |-> "create", c |-> c, align |-> al]>>
+    /\ h' = <<[a |-> "create", c |-> ct, off |-> off, align |-> al, tz |-> (IF al = None THEN "none" ELSE TzOf[al])]>>
 
 AddSeries(s) ==
     /\ Quiescent(phase) /\ joined[s] = None
@@ -117,16 +136,16 @@ Overdue(t) == IF phase = "sleep" THEN t - nextTick ELSE t - busyUntil
 
 TimePass ==
     /\ Quiescent(phase)
-    /\ now < created + Horizon
-    /\ Overdue(now + 1) <= MaxLate
-    /\ now' = now + 1
+    /\ now < created + Horizon * U
+    /\ Overdue(now + U) <= MaxLate * U
+    /\ now' = now + U
     /\ UNCHANGED <<created, alignTo, windowEnd, nextTick, phase, busyUntil, drift, gathered, joined, broken, left, removed, failed, ticks>>
     /\ h' = Append(h, [a |-> "pass"])
 
 TimerFire ==
     /\ phase \in {"sleep", "due"} /\ now >= nextTick
     /\ drift' = now - nextTick
-    /\ nextTick' = nextTick + P                  \* TriggerAllMissed
+    /\ nextTick' = nextTick + PU                 \* TriggerAllMissed
     /\ phase' = "fired"
     /\ UNCHANGED <<now, created, alignTo, windowEnd, busyUntil, gathered, joined, broken, left, removed, failed, ticks>>
     /\ h' = Append(h, [a |-> "fire", drift |-> now - nextTick, catchup |-> (phase = "due")])
@@ -134,7 +153,7 @@ TimerFire ==
 Resample(lat) ==
     /\ phase = "fired"
     /\ ticks' = Append(ticks, windowEnd)         \* every series present gets Sample(windowEnd, ..)
-    /\ busyUntil' = now + lat
+    /\ busyUntil' = now + lat * U
     /\ gathered' = NSeries
     /\ failed' = {s \in Present : broken[s] # "no"}   \* their _StreamingHelper.resample raises
     /\ phase' = IF lat = 0 THEN "done0" ELSE "busy"
@@ -146,7 +165,7 @@ Dev_AddDuringGather == gathered # None /\ NSeries > gathered
 
 Finish ==
     /\ phase \in {"busy", "done0"} /\ now >= busyUntil
-    /\ windowEnd' = windowEnd + P                \* before the results are inspected
+    /\ windowEnd' = windowEnd + PU               \* before the results are inspected
     /\ phase' = IF failed # {} THEN "raised"     \* raise ResamplingError(exceptions): resample() ends
                 ELSE IF now >= nextTick THEN "due" ELSE "sleep"
     /\ gathered' = None
@@ -177,7 +196,7 @@ Recover ==
 \* a history is handed to the harness whenever it ends in a quiescent state
 EmitRule == Quiescent(phase') => Emit(h')
 
-CreateStep == (\E c \in CreateSet, al \in AlignSet : Create(c, al)) /\ EmitRule
+CreateStep == (\E c \in CreateSet, off \in OffSet, al \in AlignSet : Create(c, off, al)) /\ EmitRule
 AddStep == (\E s \in Series : AddSeries(s)) /\ EmitRule
 PassStep == TimePass /\ EmitRule
 FireStep == TimerFire /\ EmitRule
@@ -194,16 +213,16 @@ Spec == Init /\ [][Next]_vars
 (* The clauses of C07, as operators over a recorded sequence so that the     *)
 (* trace specification evaluates the very same text on what the sinks got.   *)
 
-AlignRef(al, c) == IF al = None THEN c ELSE al
+AlignRef(al, c) == IF al = None THEN c ELSE AlPhase(al)     \* microseconds; c = the creation instant
 
 \* every timestamp is align_to + k * period for an integer k
-AlignedSeq(sq, ref) == \A i \in 1..Len(sq) : (sq[i] - ref) % P = 0
+AlignedSeq(sq, ref) == \A i \in 1..Len(sq) : (sq[i] - ref) % PU = 0
 
 \* consecutive k: none skipped, duplicated or reordered
-ConsecutiveSeq(sq) == \A i \in 1..(Len(sq) - 1) : sq[i + 1] = sq[i] + P
+ConsecutiveSeq(sq) == \A i \in 1..(Len(sq) - 1) : sq[i + 1] = sq[i] + PU
 
 \* the timeline starts no earlier than the creation and no later than two periods after it
-FirstTickWindowSeq(sq, c) == Len(sq) > 0 => (c <= sq[1] /\ sq[1] <= c + 2 * P)
+FirstTickWindowSeq(sq, c) == Len(sq) > 0 => (c <= sq[1] /\ sq[1] <= c + 2 * PU)
 
 IsSuffix(a, b) == Len(a) <= Len(b) /\ a = SubSeq(b, Len(b) - Len(a) + 1, Len(b))
 IsSegment(a, b) == \E i \in 0..(Len(b) - Len(a)) : a = SubSeq(b, i + 1, i + Len(a))
@@ -214,7 +233,7 @@ SameForAll(em) == \A s \in DOMAIN em : IsSegment(em[s], em[1])
 \* no tick is withheld: once the loop has caught up (it waits for a timer that is not yet due)
 \* every grid point from the first tick up to `now` has been handed out, and the first tick is
 \* not overdue either
-CaughtUpSeq(sq, c, t) == IF Len(sq) = 0 THEN t < c + 2 * P ELSE sq[Len(sq)] + P > t
+CaughtUpSeq(sq, c, t) == IF Len(sq) = 0 THEN t < c + 2 * PU ELSE sq[Len(sq)] + PU > t
 
 Aligned == phase # "none" => \A s \in Series : AlignedSeq(emitted[s], AlignRef(alignTo, created))
 Consecutive == \A s \in Series : ConsecutiveSeq(emitted[s])
@@ -233,7 +252,7 @@ CaughtUp == (phase = "sleep" /\ now < nextTick) => CaughtUpSeq(ticks, created, n
 \* while a tick is being processed the timer is exactly one period ahead
 TimerTracksWindow ==
     phase # "none" =>
-       IF phase \in {"sleep", "due", "raised"} THEN nextTick = windowEnd ELSE nextTick = windowEnd + P
+       IF phase \in {"sleep", "due", "raised"} THEN nextTick = windowEnd ELSE nextTick = windowEnd + PU
 \* a tick is never handed out before its window has ended
 NeverEarly == phase = "fired" => windowEnd <= now
 TypeOK ==
